@@ -387,7 +387,7 @@ impl Property for C03 {
                 if sc.history > 0 {
                     out.probe(&format!("cli_call_history.{}", sc.history));
                     let wpath = match sc.history {
-                        3 => scratch.path("in.qasm"),
+                        3 => cli::input_path(&scratch, &header, &stmts),
                         4 => scratch.path("no-such-file.qasm"),
                         _ => scratch.path("earlier.qasm"),
                     };
